@@ -58,6 +58,8 @@ def gen_scenarios(ctx, n):
                         r['dup'] = rng.random() < 0.3
                 elif rng.random() < 0.2 and mlen + 40 > 130:
                     r['split'] = rng.randrange(64, mlen + 20)
+                if rng.random() < 0.25:
+                    r['pad'] = rng.choice([1, 4, 6, 18, 46])          # the frame is longer than the IP packet (link padding): not part of the message
                 burst.append(r)
             bursts.append(burst)
         sc = dict(mtu=mtu, bursts=bursts)
